@@ -12,7 +12,7 @@ import ast
 from ..core import AnalysisError, norm, loc, walk_no_nested, attr_chain, call_name, kwarg, find_calls, call_matches, receiver_name, assigned_from
 from ..cfg import CFG
 from ..core import func_params
-from ..normalize import inline, branch_values, merge_outcomes, Unknown, ctext, canon, local_env, expand, builders, eval_test, value_under, _enclosing, conjuncts, truth_under, clone
+from ..normalize import inline, branch_values, merge_outcomes, Unknown, ctext, canon, local_env, expand, builders, eval_test, value_under, _enclosing, conjuncts, truth_under, clone, split_target_ifexp
 
 DELS = 'fim.slivers.delegations'
 ARM = 'fim.graph.resources.abc_arm:ABCARMPropertyGraph'
@@ -244,7 +244,7 @@ def check_delegation_codec(prog, rep, rule):
                 return (c.args[0], ast.Constant(value='details'))
         return None
     try:
-        dec = merge_outcomes(branch_values(dl.body, dec_sink))
+        dec = split_target_ifexp(merge_outcomes(branch_values(dl.body, dec_sink)))
     except Unknown as u:
         raise AnalysisError(f'Delegations.from_json not analysable: {u}')
     seen_fmt = set()
@@ -285,7 +285,7 @@ def check_delegation_codec(prog, rep, rule):
         if f not in seen_fmt:
             rep.violation(rule, loc(mod, fj), 'Delegations.from_json', f'format {f} not decoded', f'{f} delegations cannot be decoded')
     # from_json builds through the guarded API
-    floops = [l for l in walk_no_nested(fj) if isinstance(l, ast.For) and isinstance(l.iter, ast.Call) and call_name(l.iter) == 'items']
+    floops = [l for l in walk_no_nested(fji) if isinstance(l, ast.For) and isinstance(l.iter, ast.Call) and call_name(l.iter) == 'items']
     if not floops or not isinstance(floops[0].target, ast.Tuple):
         raise AnalysisError('Delegations.from_json: loop over the decoded entries not found')
     kvar = floops[0].target.elts[0].id
